@@ -10,8 +10,11 @@ RULE = ("Hypothesis composite histories of 6-14 simulations on one instance (who
         "11 reactant kinds (numbers, ranges n-m, absent number, redefinition), explicit and implicit batch reactions with USE/SAVE "
         "(single numbers and ranges), COPY kind / COPY cell (ranges, missing source, hidden negative numbers), DELETE (lists, ranges, "
         "-cells, -all), one-field *_MODIFY of 10 kinds, X_MIX keywords, RUN_CELLS, USE of a missing number, SAVE without reaction, "
-        "COPY+DELETE / MODIFY+COPY / reaction+COPY in one simulation; after every simulation DUMP -all is compared with a reference "
-        "map (kind, number) -> content id built from the documented semantics. Non-trivial = at least 5 simulations checked, at "
+        "COPY+DELETE / MODIFY+COPY / reaction+COPY(+DELETE) in one simulation; after every simulation DUMP -all is compared with a "
+        "reference map (kind, number) -> content id built from the documented semantics; a history stops at the first simulation "
+        "whose calculation fails. Excluded by construction (counted): two definitions of one kind sharing a number in one "
+        "simulation, EXCHANGE_MODIFY -component by formula, failing simulations that carry COPY/DELETE/RUN_CELLS (three known "
+        "findings, replays/C14/known). Non-trivial = at least 5 simulations checked, at "
         "least one COPY that created an entry, one DELETE that removed an entry, and entries of >= 2 kinds; distinct by SHA-256 "
         "of the case")
 ASSUMPTIONS = [
@@ -30,9 +33,9 @@ LEVEL_TEXT = ("Exploration: thousands of generated operation histories; after ea
               "must be textually identical, *_MODIFY may differ only in the named quantity, *_MIX and MIX must reproduce the "
               "inventory of the current entries, RUN_CELLS must equal USE+SAVE on twin instances restored from the RAW text, and "
               "the component list must cover every element of every entry.")
-FLOORS = {"quick": 200, "thorough": 2000}
+FLOORS = {"quick": 200, "thorough": 4000}
 SHARDS = {"quick": 4, "thorough": 4}   # DEV: machine is shared; final value 8/16
-BUDGET = {"quick": 300, "thorough": 2500, "replay": 1}
+BUDGET = {"quick": 300, "thorough": 1500, "replay": 1}
 
 DB = "phreeqc.dat"
 OBSERVE = "DUMP\n -all\nEND\n"
@@ -343,7 +346,6 @@ def check_case(case, ctx):
         kinds_seen = set()
         copy_eff = delete_eff = False
         for i, op in enumerate(case["ops"]):
-            before = set(M.keys())
             try:
                 plan = M.apply(op)
             except G.OutOfDomain as e:
@@ -353,7 +355,10 @@ def check_case(case, ctx):
                 if G.mod_plan(md, prev.parsed.get((md["kind"], G.num(md["n"]))))["excluded"]:
                     ctx.event("excluded_by_construction:exchange_modify_component_by_formula")
             rc = I.run_string(text)
-            if plan["expect_error"]:
+            if plan["expect_error"] and "resync" in plan["flags"]:
+                cur = Obs(I)
+                M.resync(sorted(cur.raw))
+            elif plan["expect_error"]:
                 cur = Obs(I)
                 cur.carry_hidden(plan, prev)
                 check_store(i, plan, prev, cur)
@@ -386,7 +391,7 @@ def check_case(case, ctx):
             after = set(M.keys())
             fl = plan["flags"]
             classes.update(fl)
-            if "copy" in fl and (after - before or "copy" in fl):
+            if "copy" in fl:           # set by the model only when a COPY wrote at least one entry
                 copy_eff = True
             if "delete" in fl:
                 delete_eff = True
